@@ -5,6 +5,7 @@ package spyfs
 
 import (
 	"fmt"
+	"io"
 	iofs "io/fs"
 	"math/rand"
 	"os"
@@ -390,8 +391,22 @@ func (f *File) ReadAt(p []byte, off int64) (int, error) {
 	if e := faultErr(flt); e != nil {
 		return 0, &os.PathError{Op: "read", Path: f.name, Err: e}
 	}
-	// io.ReaderAt must return a non-nil error when n < len(p); a "short ReadAt" is therefore not a
-	// legal behaviour of an underlying file and is not injected.
+	// io.ReaderAt must return a non-nil error when n < len(p): the legal short ReadAt is the one of a
+	// file that has become shorter — k bytes and io.EOF, as the OS reports it
+	if flt != nil && flt.Kind == FShort && len(p) > 1 {
+		k := flt.K
+		if k < 1 {
+			k = 1
+		}
+		if k > len(p)-1 {
+			k = len(p) - 1
+		}
+		n, err := f.File.ReadAt(p[:k], off)
+		if err == nil {
+			err = io.EOF
+		}
+		return n, err
+	}
 	return f.File.ReadAt(p, off)
 }
 
